@@ -126,12 +126,52 @@ impl Replace for MTok {
 }
 
 pub const REENTRANT_MARK: &str = "REENTRANCY-MISMATCH ";
+pub const PURITY_MARK: &str = "METHOD-PURITY-MISMATCH ";
+
+/// Oracle H8: a fixed set of trait-method calls (formatting of caller-built numbers, two predicates
+/// and the morphological marker of fixed words) made straight on the interpreter before and after
+/// every call of a history. Each of them is itself a call whose result may depend on its arguments
+/// only, so (i) the answers before and after the body must be equal (what did this very call leave
+/// behind for a later trait-method call?) and (ii) the answers before the body are part of the call's
+/// result and therefore compared with the pristine-process table (what did an earlier call leave?).
+/// The builders are made with the digit builder alone: no interpreter call is involved in the setup.
+fn purity_probe<L: LangInterpreter>(l: &L) -> String {
+    let r = guarded(|| {
+        let mk = |d: &[u8]| {
+            let mut b = DigitString::new();
+            let _ = b.put(d);
+            b
+        };
+        let (i12, i2, d5, d07) = (mk(b"12"), mk(b"2"), mk(b"5"), mk(b"07"));
+        let mut d05 = DigitString::new();
+        let _ = d05.push(b"0");
+        let _ = d05.push(b"5");
+        let (a, av) = l.format_and_value(&i12);
+        let (b, bv) = l.format_decimal_and_value(&i2, &d5);
+        let (c, cv) = l.format_decimal_and_value(&i12, &d05);
+        let (d, dv) = l.format_decimal_and_value(&i2, &d07);
+        let (e, ev) = l.format_and_value(&i2);
+        format!(
+            "{a}/{}|{b}/{}|{c}/{}|{d}/{}|{e}/{}|{:?}{}{}",
+            av.to_bits(),
+            bv.to_bits(),
+            cv.to_bits(),
+            dv.to_bits(),
+            ev.to_bits(),
+            l.get_morph_marker("xyzzy"),
+            l.is_linking("xyzzy") as u8,
+            l.is_decimal_sep("xyzzy") as u8
+        )
+    });
+    r.unwrap_or_else(|_| "PROBE-PANIC".to_string())
+}
 
 fn exec_with<L: LangInterpreter>(l: &L, call: &Call, yield_on: bool) -> String {
     let reentry_flag = Rc::new(std::cell::Cell::new(false));
     let log = Log::new();
     log.crash_at.set(call.crash_at);
     log.yield_on.set(yield_on);
+    let pre = purity_probe(l);
     let r = guarded(|| match &call.op {
         Op::T2d { text } => {
             let cl = CrashLang::with_reentry(l, call.crash_at, call.reenter, reentry_flag.clone());
@@ -243,6 +283,12 @@ fn exec_with<L: LangInterpreter>(l: &L, call: &Call, yield_on: bool) -> String {
         Ok(s) => s,
         Err(_) => "PANIC".to_string(),
     };
+    let post = purity_probe(l);
+    if pre != post {
+        return format!("{PURITY_MARK}trait-method probe before the call body {pre:?}, the same calls after it {post:?}; result {res:?}");
+    }
+    // the probe before the body is part of the result: compared with the pristine table (H1/H2)
+    let res = format!("{res} ~{pre}");
     if reentry_flag.get() {
         // a library call nested inside a caller callback did not give what it gives on its own
         format!("{REENTRANT_MARK}{res}")
@@ -840,7 +886,7 @@ impl Check for C14 {
             for (k, (ci, got)) in rs.iter().enumerate() {
                 fp.str(got);
                 let call = &case.calls[*ci];
-                if call.crash_at > 0 && got == "PANIC" {
+                if call.crash_at > 0 && got.starts_with("PANIC") {
                     stats.hit("fault.client_crash_mid_call");
                 }
                 if call.reenter > 0 {
@@ -854,6 +900,12 @@ impl Check for C14 {
                 if got.starts_with(UNWIND_MARK) && violation.is_none() {
                     violation = Some(Violation {
                         oracle: "H6-unwinding".into(),
+                        detail: format!("thread {ti} call #{k} {}: {}", serde_json::to_string(call).unwrap_or_default(), got),
+                    });
+                }
+                if got.starts_with(PURITY_MARK) && violation.is_none() {
+                    violation = Some(Violation {
+                        oracle: "H8-method-purity".into(),
                         detail: format!("thread {ti} call #{k} {}: {}", serde_json::to_string(call).unwrap_or_default(), got),
                     });
                 }
